@@ -975,6 +975,7 @@ static inline int myth_yield_ex_body(int opt) {
 #if MYTH_YIELD_DEBUG
   myth_dprintf("myth_yield:thread %p yields execution to scheduler\n",th);
 #endif
+  MYTH_VERIF_EVENT("yield.enter", th, opt);
   //Get next runnable thread
   next = NULL;
   switch (opt) {
